@@ -73,10 +73,13 @@ def gen_cases(ctx, tier):
     wolfe = ctx.path("optim-wolfe-%s.ndjson" % tier)
     res2 = ctx.tlc("WolfeCases", "WolfeCases.cfg", workers=2, timeout=600, json_out=wolfe, label="wolfe-cases")
     routes = collections.Counter()
+    hermite = collections.Counter()
     with open(cases, "a") as f, open(wolfe) as g:
         for line in g:
             c = json.loads(line)
             routes[(c["form"], tuple(c["classes"][:2]))] += 1
+            if c["form"] == "hermite":
+                hermite[(c["wolfe_at_trial"], c["wrong_ref_accepts"])] += 1
             f.write(line)
     # vacuity: the boundary situations the family exists for are really among the printed cases
     need = [("mono", ("weakonly",)), ("mono", ("short", "weakonly")), ("mono", ("short", "wolfe")), ("mono", ("noarmijo",)),
@@ -84,6 +87,12 @@ def gen_cases(ctx, tier):
     for form, prefix in need:
         if not any(k[0] == form and k[1][:len(prefix)] == prefix for k in routes):
             raise vlib.Infra("WolfeCases: no %s case whose trial steps start with %s" % (form, prefix))
+    # non-convex Hermite cases: the zoom trial step must come out on every side of the two reference slopes
+    for k in ((True, True), (False, True), (False, False)):
+        if hermite[k] == 0:
+            raise vlib.Infra("WolfeCases: no hermite case with (strong Wolfe at the zoom trial, accepted against the wrong reference) = %s" % (k,))
+    if not any(k[0] == "nonconvex" for k in routes):
+        raise vlib.Infra("WolfeCases: no nonconvex case")
     ctx.extra["wolfe_cases"] = {"%s:%s" % (k[0], ">".join(k[1])): v for k, v in sorted(routes.items())}
     return cases, res.json_count + res2.json_count
 
